@@ -120,6 +120,12 @@ func crashCase(env *vlib.Env, h int, rep *vlib.Reporter) {
 					tx    smchain.Tx
 				}{"malformed", m})
 			}
+			// the signature of a delivered member transaction in front of another payload
+			nonce++
+			inj = append(inj, struct {
+				class string
+				tx    smchain.Tx
+			}{"malformed", hist.U.Transplant(*lastValid, nonce, shmsg.NewBlockSeen(uint64(1000+b)), "seen")})
 			// replay of a delivered transaction, and a wrong-chain transaction
 			inj = append(inj, struct {
 				class string
